@@ -45,18 +45,18 @@ When(c, key) == IF c THEN <<key>> ELSE <<>>
 NoRun == [prevs |-> <<>>, fin |-> <<>>, fout |-> <<>>]
 Init == /\ l = 1 /\ pass = "" /\ order = <<>> /\ prevs = <<>> /\ nexts = <<>> /\ fin = <<>> /\ fout = <<>>
         /\ visited = {} /\ roots = {} /\ changed = FALSE /\ waiting = 0 /\ cursor = 1 /\ sweeps = 1
-        /\ lastEnd = [p \in {"available", "liveness"} |-> NoRun]
+        /\ lastEnd = [p \in {"available", "liveness", "udef"} |-> NoRun]
 
 \* a new program: nothing carries over
 Program ==
   /\ Rec[l].ev = "program"
   /\ pass' = "" /\ order' = <<>> /\ prevs' = <<>> /\ nexts' = <<>> /\ fin' = <<>> /\ fout' = <<>>
   /\ visited' = {} /\ roots' = {} /\ changed' = FALSE /\ waiting' = 0 /\ cursor' = 1 /\ sweeps' = 1
-  /\ lastEnd' = [p \in {"available", "liveness"} |-> NoRun]
+  /\ lastEnd' = [p \in {"available", "liveness", "udef"} |-> NoRun]
 
 \* (u_def has a loop of its own since 52fac33, without step events: the udef field of a liveness event is whatever an
 \* earlier run left behind and is not compared here; Trace_Stable compares the u_def sets of the finished graph)
-InFacts(e)  == IF e.pass = "available" THEN ToSet(e.in) ELSE <<ToSet(e.in), {}>>
+InFacts(e)  == IF e.pass \in {"available", "udef"} THEN ToSet(e.in) ELSE <<ToSet(e.in), {}>>
 Begin ==
   /\ Rec[l].ev = "begin"
   /\ LET e == Rec[l] ns == e.nodes I == Ids(ns) IN
@@ -64,7 +64,7 @@ Begin ==
      /\ order' = [k \in 1..Len(ns) |-> ns[k].id]
      /\ prevs' = [i \in I |-> Field(ns, i, "prevs")]
      /\ nexts' = [i \in I |-> Field(ns, i, "nexts")]
-     /\ fin'  = [i \in I |-> IF e.pass = "available" THEN Field(ns, i, "in")
+     /\ fin'  = [i \in I |-> IF e.pass \in {"available", "udef"} THEN Field(ns, i, "in")
                              ELSE <<Field(ns, i, "in"), {}>>]
      /\ fout' = [i \in I |-> Field(ns, i, "out")]
   /\ visited' = {} /\ roots' = {} /\ changed' = FALSE /\ waiting' = 0 /\ sweeps' = 1
@@ -117,10 +117,36 @@ VisitLive ==
         /\ cursor' = cursor + 1
   /\ UNCHANGED <<pass, order, prevs, nexts, roots, waiting, sweeps, lastEnd>>
 
+\* ---- u_def: forward, cfg.iter(), no wait rule; a predecessor that has not been visited stands for "everything"
+\* (PassLoop.tla with UnvisitedIsTop; the 32 registers are the facts).  `in` is the AND the loop computed.
+VisitUdef ==
+  /\ Rec[l].ev = "visit" /\ Rec[l].pass = "udef"
+  /\ LET e == Rec[l] n == e.id
+         known == n \in DOMAIN prevs
+         P  == IF known THEN prevs[n] ELSE {}
+         vp == P \cap visited
+         i == ToSet(e.in)  o == ToSet(e.out)
+         okIn == IF P = {} THEN i = {}
+                 ELSE IF vp = {} THEN Cardinality(i) = 32        \* everything
+                 ELSE i = MeetOut(fout, vp)
+         expCh == changed \/ (known /\ o # fout[n])
+     IN /\ SayAll("DRIFT", e,
+                  When(~known \/ cursor > Len(order) \/ (cursor <= Len(order) /\ order[cursor] # n), "udef:visit-order")
+                  \o When(known /\ ~okIn, "udef:in-is-not-the-meet-of-visited-predecessors")
+                  \o When(known /\ e.changed # expCh, "udef:changed-flag"))
+        /\ fin'  = [j \in DOMAIN fin \cup {n}  |-> IF j = n THEN i ELSE fin[j]]
+        /\ fout' = [j \in DOMAIN fout \cup {n} |-> IF j = n THEN o ELSE fout[j]]
+        /\ visited' = visited \cup {n}
+        /\ changed' = e.changed
+        /\ cursor' = cursor + 1
+  /\ UNCHANGED <<pass, order, prevs, nexts, roots, waiting, sweeps, lastEnd>>
+
 \* ---- the end of a sweep / of the run
 \* (a node that had to be promoted to a root is an entry of unreachable code: nothing is known there)
 OffMeet == { n \in DOMAIN fin : fin[n] # RootIn(TRUE, roots, n, MeetOut(fout, prevs[n])) }
 OffJoin == { n \in DOMAIN fin : fout[n] # UNION { fin[s][1] : s \in nexts[n] } }
+\* u_def: when the run stops every node has been visited, so `in` is the AND over all predecessors (nothing without any)
+OffMeetU == { n \in DOMAIN fin : fin[n] # (IF prevs[n] = {} THEN {} ELSE MeetOut(fout, prevs[n])) }
 SameStart(p) == lastEnd[p] # NoRun /\ lastEnd[p].prevs = prevs
 SweepEnd ==
   /\ Rec[l].ev = "sweep_end"
@@ -137,8 +163,11 @@ SweepEnd ==
         /\ SayAll("VERDICT", e,
                   When(stop /\ e.pass = "available" /\ OffMeet # {}, "C12:steps:run-ends-off-the-fixed-point:available")
                   \o When(stop /\ e.pass = "liveness" /\ OffJoin # {}, "C12:steps:run-ends-off-the-fixed-point:liveness")
+                  \* (`in` of the u_def loop is not kept on the node: a re-run that finds every set unchanged stops after one
+                  \* sweep, in which a node may have seen only some of its predecessors - judged from the second sweep on)
+                  \o When(stop /\ e.pass = "udef" /\ sweeps >= 2 /\ OffMeetU # {}, "C12:steps:run-ends-off-the-fixed-point:udef")
                   \o When(stop /\ e.rerun /\ SameStart(e.pass)
-                               /\ (lastEnd[e.pass].fin # fin \/ lastEnd[e.pass].fout # fout),
+                               /\ ((e.pass # "udef" /\ lastEnd[e.pass].fin # fin) \/ lastEnd[e.pass].fout # fout),
                           "C12:steps:rerun-changes-facts:" \o e.pass)
                   \o When(sweeps > SweepLimit(Len(order)), "C12:steps:sweeps-exceed-limit:" \o e.pass))
         /\ IF stop
@@ -151,7 +180,7 @@ SweepEnd ==
                   /\ UNCHANGED lastEnd
   /\ UNCHANGED <<pass, order, prevs, nexts, fin, fout, visited>>
 
-Next == l <= Len(Rec) /\ (Program \/ Begin \/ VisitAvail \/ VisitLive \/ SweepEnd) /\ l' = l + 1
+Next == l <= Len(Rec) /\ (Program \/ Begin \/ VisitAvail \/ VisitLive \/ VisitUdef \/ SweepEnd) /\ l' = l + 1
 Spec == Init /\ [][Next]_vars
 Accepted == IF TLCGet("stats").diameter = Len(Rec) + 1 THEN TRUE
             ELSE PrintT("TRACE-NOT-CONSUMED") /\ FALSE
